@@ -367,8 +367,9 @@ def run(ctx):
                     else:
                         d1 = max(abs(a - b) for ra, rb in zip(rev, fd) for a, b in zip(ra, rb)) / scale
                         d2 = max(abs(a - b) for ra, rb in zip(rev, fwd) for a, b in zip(ra, rb)) / scale
-                        pstats["worst_rev_vs_fd"] = max(pstats["worst_rev_vs_fd"], d1)
                         pstats["worst_fwd_vs_rev"] = max(pstats["worst_fwd_vs_rev"], d2)
+                        if mo.get("zero_norm_state") != si:
+                            pstats["worst_rev_vs_fd"] = max(pstats["worst_rev_vs_fd"], d1)
                         if mo.get("zero_norm_state") == si:
                             # exactly-zero norm argument: KNOWN finding C45-F2 when (and only when) the finite gradient disagrees with FD
                             pstats["known_f2_replays"] = pstats.get("known_f2_replays", 0) + 1
